@@ -218,11 +218,12 @@ int _GD_Include(DIRFILE *D, struct parser_state *p, const char *ename,
     goto include_error;
   }
 
-  /* when the rootspace changes, the current namespace gets reset to "", since
-   * it's relative to rootspace.  But, remember old current namespace so we can
-   * pop at the end
+  /* The included fragment starts in its rootspace: the current namespace gets
+   * reset to "", since it's relative to rootspace.  Remember the old current
+   * namespace so we can pop at the end: a /NAMESPACE directive in the included
+   * fragment must never propagate upwards, whether or not the rootspace changed.
    */
-  if (newns) {
+  {
     pop_ns = 1;
     p->ns = NULL; /* Don't free: we'll need it back when we pop */
     p->nsl = 0;
